@@ -150,8 +150,8 @@ def det_ops(rng):
 def stat_cases(rng, seeds, tier):
     cases = []
     big = tier == "thorough"
-    n_ks = 20000 if big else 4000
-    n_chi = 100000 if big else 20000
+    n_ks = 50000 if big else 4000
+    n_chi = 400000 if big else 20000
     grid = GRID if big else [0.1, 1.0, 5.0, 20.0]
     fams = []
     for a in grid:
@@ -163,7 +163,9 @@ def stat_cases(rng, seeds, tier):
     for a, b in pair_grid:
         fams.append(("gauss", [rng.choice([-3.0, 0.0, 7.5]), b]))       # mean, variance
         fams.append(("gamma2", [a, b]))
-        fams.append(("beta", [a, b]))
+        # Beta(a, b) with b < 0.27 has more than 1e-4 of its mass within one ulp of 1 (for a = 1 and
+        # b = 0.1: 2.7%), where doubles cannot resolve the cdf: a KS test on doubles is meaningless there
+        fams.append(("beta", [a, max(b, 0.5)]))
         fams.append(("dGamma", [a, b]))
         fams.append(("dGauss", [rng.choice([-3.0, 0.0, 7.5]), b]))      # mu, sigma
         fams.append(("dBeta", [max(a, 0.5), max(b, 0.5)]))
@@ -198,10 +200,13 @@ def generate(seed, tier):
     rng = random.Random(seed)
     seeds = seeds_of(seed)
     cases = []
-    # 1. rcont2 over all margin vectors with small totals (2..3 rows/columns; zeros included)
-    maxtot = 6 if tier == "thorough" else 4
+    # 1. rcont2 over all margin vectors with small totals (zeros included), every shape up to 5 rows/columns
+    if tier == "thorough":
+        shapes = {(2, 2): 9, (2, 3): 8, (3, 2): 8, (3, 3): 8, (2, 4): 6, (4, 2): 6, (3, 4): 5, (4, 3): 5, (4, 4): 4, (2, 5): 5, (5, 2): 5, (5, 5): 2, (3, 5): 3, (5, 3): 3}
+    else:
+        shapes = {(2, 2): 5, (2, 3): 4, (3, 2): 4, (3, 3): 4, (2, 4): 3, (4, 2): 3, (4, 4): 2, (2, 5): 2, (5, 2): 2}
     k = 0
-    for nr, nc in [(2, 2), (2, 3), (3, 2), (3, 3)]:
+    for (nr, nc), maxtot in shapes.items():
         for tot in range(0, maxtot + 1):
             ops = []
             for rows in compositions(tot, nr):
@@ -214,7 +219,7 @@ def generate(seed, tier):
     for s in seeds:
         cases.append(["case rc-w-%d" % s, "seed %d" % s] + ["rcont2 5 1 ; 3 3"] * 20 + ["rcont2 9 2 1 ; 4 4 4"] * 10)
     # 3. random deterministic-tie scripts
-    nrand = 4000 if tier == "thorough" else 500
+    nrand = 30000 if tier == "thorough" else 1200
     for i in range(nrand):
         L = rng.randint(4, 14)
         cases.append(["case det-%d" % i, "seed %d" % seeds[i % 16]] + [det_ops(rng) for _ in range(L)])
